@@ -318,7 +318,9 @@ Proof. exact set_model_fresh_of_needs_unscripted. Qed.
 Example c18_syncedb_examples : syncedb x_managed = true /\ syncedb x_rbac = true /\
   syncedb (fst (step x_rbac (OSetModel rbac2_def))) = true.
 Proof. exact ex_syncedb. Qed.
-(* limit of the exact notion: an incremental removal leaves isolated nodes behind *)
+(* limit of the exact notion: an incremental removal leaves isolated nodes behind
+   (closed in Properties/C18obs.v: the same three theorems under the weaker
+   `ObsSynced`, which holds after every history of incremental calls) *)
 Example c18_not_synced_after_remove :
   syncedb (fst (step x_rbac (ORemove s_g s_g [admin; root]))) = false.
 Proof. exact ex_not_synced_after_remove. Qed.
